@@ -1313,28 +1313,31 @@ func (schema *Schema) visitXOFOperations(settings *schemaValidationSettings, val
 				discriminatorVal, okcheck := valuemap[pn]
 				if !okcheck {
 					return &SchemaError{
-						Schema:      schema,
-						SchemaField: "discriminator",
-						Reason:      fmt.Sprintf("input does not contain the discriminator property %q", pn),
+						Schema:                schema,
+						SchemaField:           "discriminator",
+						Reason:                fmt.Sprintf("input does not contain the discriminator property %q", pn),
+						customizeMessageError: settings.customizeMessageError,
 					}, false
 				}
 
 				discriminatorValString, okcheck := discriminatorVal.(string)
 				if !okcheck {
 					return markSchemaErrorKey(&SchemaError{
-						Value:       discriminatorVal,
-						Schema:      schema,
-						SchemaField: "discriminator",
-						Reason:      fmt.Sprintf("value of discriminator property %q is not a string", pn),
+						Value:                 discriminatorVal,
+						Schema:                schema,
+						SchemaField:           "discriminator",
+						Reason:                fmt.Sprintf("value of discriminator property %q is not a string", pn),
+						customizeMessageError: settings.customizeMessageError,
 					}, pn), false
 				}
 
 				if discriminatorRef, okcheck = schema.Discriminator.Mapping[discriminatorValString]; len(schema.Discriminator.Mapping) > 0 && !okcheck {
 					return markSchemaErrorKey(&SchemaError{
-						Value:       discriminatorVal,
-						Schema:      schema,
-						SchemaField: "discriminator",
-						Reason:      fmt.Sprintf("discriminator property %q has invalid value", pn),
+						Value:                 discriminatorVal,
+						Schema:                schema,
+						SchemaField:           "discriminator",
+						Reason:                fmt.Sprintf("discriminator property %q has invalid value", pn),
+						customizeMessageError: settings.customizeMessageError,
 					}, pn), false
 				}
 			}
